@@ -17,6 +17,10 @@ CHECKS = [
      'technique': 'deterministic simulation: seeded collation/generator/thread histories with injected setlocale failures over stub locale+lock seams; world invariants + pristine-process differential',
      'text': 'Seeded search over histories of collation evaluations, interleaved lazy generators and thread schedules under per-run installed-locale sets and injected locale.Error faults; after every operation the lock/locale/decimal/environ invariants and a pristine-process differential are checked, and a fault-free recovery probe ends each run. Sampling, not proof.',
      'note': 'Trusts the stub locale database (orderings are not glibc), Python-line pre-emption granularity, and the canonical result form.'},
+    {'id': 'C15', 'level': 'exploration', 'design_ref': 'DESIGN.md section 2, C15',
+     'technique': 'deterministic simulation: seeded operation histories over a pool of aliasing map/array values, persistent reference model, re-observation of every pool member after every operation',
+     'text': 'Seeded histories of map:*/array:* functions, constructors and lookups over a pool of values that alias each other (results re-enter the pool as the same objects and are passed back through variables). After every operation the result, observed through the public functions, is compared with a persistent dict/list model and every pool member is re-observed for immutability; failing operations are part of the histories.',
+     'note': 'Trusts the reference model (same-key relation by exact numeric value / code points / type+value) and compares map keys by same-key class rather than representation.'},
 ]
 
 NOT_APPLICABLE = [
